@@ -13,7 +13,7 @@ From BBS Require Import Common.Sx Buffer.Source Buffer.Validate Buffer.Convert
   Buffer.StreamProofs Buffer.ValidateProofs Buffer.ConvertProofs
   Buffer.ValidateReaderProofs Buffer.ReaderBufferProofs Buffer.ConvertProofs2 Buffer.OtherwiseProofs Run.R09
   Buffer.C09FullValidate Buffer.C09FullCombinators Buffer.C09FullReader Buffer.C09FullChunk
-  Buffer.C09FullReaderBuf Buffer.C09FullSizeFirst.
+  Buffer.C09FullReaderBuf Buffer.C09FullSizeFirst Buffer.C09FullComplete Buffer.C09FullMonitor.
 Import ListNotations.
 Open Scope N_scope.
 
@@ -217,6 +217,23 @@ Theorem reader_buffer_bad_param : forall H cfg fuel evs attach m o,
 Proof. exact reader_bad_param. Qed.
 Print Assumptions reader_buffer_bad_param.
 
+(** (e) The converse the monitor relies on: VALID content with accepted
+    parameters is never rejected — the call / stream completes (unless the
+    model runs out of fuel). *)
+Theorem chunk_reader_buffer_valid_completes : forall H cfg fuel evs m o,
+  m <> MDiscard -> cas_chunk_reader H cfg fuel evs m = o -> o_err o <> EFuel ->
+  valid_script H cfg evs -> bad_param (g_size cfg) m = false ->
+  completed m (o_err o) = true.
+Proof. exact chunk_valid_completes. Qed.
+Print Assumptions chunk_reader_buffer_valid_completes.
+
+Theorem reader_buffer_valid_completes : forall H cfg fuel evs attach m o,
+  m <> MDiscard -> cas_reader H cfg fuel evs attach m = o -> o_err o <> EFuel ->
+  valid_script H cfg evs -> bad_param (g_size cfg) m = false ->
+  completed m (o_err o) = true.
+Proof. exact reader_valid_completes. Qed.
+Print Assumptions reader_buffer_valid_completes.
+
 (** * size_before_hash.  The hash function enters only through the comparison
     with the digest's hash; the whole outcome (data, error, further reads,
     callbacks, closes) is the same for any two hash functions that agree on
@@ -314,3 +331,39 @@ Example c09_size_before_hash :
   cas_chunk_reader (fun _ => [9; 9]) cfg 40 evs MIntoWriter = mkOut [1; 2] (ECode 3) [] [false] 1 [] /\
   cas_chunk_reader (fun _ => []) cfg 40 evs MIntoWriter = mkOut [1; 2] (ECode 3) [] [false] 1 [].
 Proof. vm_compute. auto. Qed.
+
+(** * The monitor never fires on the model: for every input (any sx, all three
+    constructors, every method) whose script error codes are genuine gRPC
+    error codes (positive) and on which the model did not run out of fuel,
+    all seven clauses of [mon09] are silent on the model's own output.
+    Full statement (no hypotheses) is FALSE in the sx encoding — see the two
+    witnesses below; kept as a comment:
+      forall inp, mon09 inp (run09 inp) = []. *)
+Theorem mon09_silent_on_model_partial : forall inp,
+  (forall x, In (Err x) (k_evs (dec_case inp)) -> (0 < x)%Z) ->
+  o_err (out09 inp) <> EFuel ->
+  mon09 inp (run09 inp) = [].
+Proof. exact mon09_silent_on_model. Qed.
+Print Assumptions mon09_silent_on_model_partial.
+
+(** Both hypotheses are necessary.  ToChunkReader with maximum chunk size 0
+    never ends (the normalizing reader hands out empty chunks for ever): the
+    model runs out of fuel and clause 3 fires on code -3.  A script error with
+    code 0 is passed through and reads as nil in an observation: clause 1. *)
+Example mon09_fires_without_fuel :
+  let inp := L [A 2; A 0; L [A 0; L [A 9]; A 1]; L [A 0; L [L [A 0; L [A 7]]; L [A 2]]];
+                L [A 3; A 0; A 0; A 0]; L [L [L [A 7]; L [A 9]]]] in
+  o_err (out09 inp) = EFuel /\ mon09 inp (run09 inp) = [3%Z].
+Proof. vm_compute. auto. Qed.
+Example mon09_fires_on_error_code_0 :
+  let inp := L [A 2; A 0; L [A 0; L [A 9]; A 1]; L [A 0; L [L [A 0; L [A 7]]; L [A 1; A 0]]];
+                L [A 0; A 5]; L [L [L [A 7]; L [A 9]]]] in
+  o_err (out09 inp) = ECode 0 /\ mon09 inp (run09 inp) = [1%Z].
+Proof. vm_compute. auto. Qed.
+(** non-vacuity: an input that meets both hypotheses *)
+Example mon09_silent_instance :
+  let inp := L [A 2; A 1; L [A 0; L [A 9]; A 1]; L [A 0; L [L [A 0; L [A 7]]; L [A 2]]];
+                L [A 3; A 0; A 4; A 1]; L [L [L [A 7]; L [A 9]]]] in
+  (forall x, In (Err x) (k_evs (dec_case inp)) -> (0 < x)%Z) /\ o_err (out09 inp) = EEof /\
+  run09 inp = L [L [A 7]; A (-1); L [A (-1)]; L [A 1]; A 1; L []].
+Proof. vm_compute. split; [intros x [Hx|[Hx|[]]]; discriminate|auto]. Qed.
